@@ -281,6 +281,11 @@ def conclude(prop, mod, tier, seed, cases, results, t0, write_evidence=True):
             i, json.dumps(cases[i], default=repr)[:300],
             {k: str(v)[-300:] for k, v in results[i].items()
              if k in ('timed_out', 'rc', 'stderr')}))
+    herr = [r for r in results if str(r.get('inconclusive', '')).startswith(
+        'harness error')]
+    if herr:
+        print('HARNESS ERROR in %d case(s); first: %s\n%s' % (
+            len(herr), herr[0]['inconclusive'], herr[0].get('tb', '')[-1200:]))
     floors = getattr(mod, 'FLOORS', {})
     if callable(floors):
         floors = floors(tier)
